@@ -621,6 +621,10 @@ class X:
             else:
                 raise Unsupported(f'attribute store on {type(obj).__name__}')
         elif isinstance(target, ast.Subscript):
+            if isinstance(target.slice, ast.Slice):
+                if not self.contract.setslice_hook(self, target, val):
+                    raise Unsupported('slice assignment')
+                return
             obj = self.eval(target.value)
             key = self.eval(target.slice)
             self.setitem(obj, key, val)
@@ -693,6 +697,14 @@ class X:
         # nested function: a value that can only be called through a stub named after it
         stub = self.contract.stubs.get(s.name)
         self.env[s.name] = VFunc(stub, s.name) if stub else VPy(None, s.name)
+
+    def st_With(self, s):
+        # `with <expr> as <name>:` - the context manager is a callee (stub); __exit__ is assumed not to swallow exceptions
+        for item in s.items:
+            v = self.eval(item.context_expr)
+            if item.optional_vars is not None:
+                self.assign(item.optional_vars, v)
+        self.exec_block(s.body)
 
     def st_Try(self, s):
         try:
@@ -1202,17 +1214,7 @@ class X:
         # bound method of a modelled value
         return VFunc(lambda X, args, kwargs, _o=obj, _a=e.attr: X.method(_o, _a, args, kwargs), f'.{e.attr}')
 
-    def ex_Call(self, e):
-        # stub lookup by dotted source text first (callee contracts)
-        dotted = _dotted(e.func)
-        args = None
-        if dotted and dotted in self.contract.stubs and not (isinstance(e.func, ast.Name) and e.func.id in self.env
-                                                              and not isinstance(self.env[e.func.id], (VFunc, VPy))):
-            args = [self.eval(a) for a in e.args]
-            kwargs = {k.arg: self.eval(k.value) for k in e.keywords}
-            self.where = ('call', e.lineno, dotted)
-            return self.contract.stubs[dotted](self, args, kwargs)
-        f = self.eval(e.func)
+    def call_args(self, e):
         args = []
         for a in e.args:
             if isinstance(a, ast.Starred):
@@ -1231,6 +1233,18 @@ class X:
                     continue
                 raise Unsupported('**kwargs call')
             kwargs[k.arg] = self.eval(k.value)
+        return args, kwargs
+
+    def ex_Call(self, e):
+        # stub lookup by dotted source text first (callee contracts)
+        dotted = _dotted(e.func)
+        if dotted and dotted in self.contract.stubs and not (isinstance(e.func, ast.Name) and e.func.id in self.env
+                                                              and not isinstance(self.env[e.func.id], (VFunc, VPy))):
+            args, kwargs = self.call_args(e)
+            self.where = ('call', e.lineno, dotted)
+            return self.contract.stubs[dotted](self, args, kwargs)
+        f = self.eval(e.func)
+        args, kwargs = self.call_args(e)
         self.where = ('call', e.lineno, dotted)
         if isinstance(f, VFunc):
             if f.fn is None:
@@ -1386,6 +1400,9 @@ class Contract:
         return None
 
     def setitem_hook(self, X, obj, key, val):
+        return False
+
+    def setslice_hook(self, X, target, val):
         return False
 
     def equal_hook(self, X, a, b):
